@@ -453,10 +453,21 @@ def fp_cover(key, all_names):
         elif rel == 'fields.rs' and fn == 'pow' and 'FieldElement' in ctx:
             T = 'Fp'
         if T:
-            pat = re.compile(rf'{T}_{re.escape(fn)}_(equiv|bound\d+|loop\d+_equiv|for\d+_equiv)')
+            pat = re.compile(rf'{T}_{re.escape(fn)}_(equiv|refines|bound\d+|loop\d+_equiv|for\d+_equiv)')
             names = sorted(n for n in all_names if pat.fullmatch(n))
             if not any(n == f'{T}_{fn}_equiv' for n in names):
                 names = None
+    elif rel == 'lib.rs' and ctx == '' and fn == 'from':
+        # `impl From<Fr> / From<&Fr> / From<Fq> / From<Fq2> for [u8; N]` (the `;` of the header hides the context), in file order
+        which = {'lib.rs::::from': 'LibFr_into_bytes', 'lib.rs::::from#2': 'LibFr_into_bytes_ref', 'lib.rs::::from#3': 'LibFq_into_bytes'}.get(key)
+        names = [f'{which}_equiv', f'{which}_refines'] if which else None
+    elif rel == 'lib.rs' and re.fullmatch(r'impl (F[rq])|impl (FromStr|TryFrom < & \[ u8 \] >) for (F[rq])', ctx):
+        # scalar / base field wrappers: limb level (Gen/LimbEquiv.lean: `LibFr_*`, `LibFq_*`, equivalence + value-level refinement)
+        T = 'Lib' + (re.search(r'F[rq]$', ctx).group(0))
+        pat = re.compile(rf'{T}_{re.escape(fn)}_(equiv|refines|bound\d+)')
+        names = sorted(n for n in all_names if pat.fullmatch(n))
+        if not any(n == f'{T}_{fn}_equiv' for n in names):
+            names = None
     elif rel == 'lib.rs':
         m = re.fullmatch(r'impl (G[12])', ctx)
         if m and fn in ('from_compressed', 'to_compressed', 'to_uncompressed', 'from_uncompressed', 'to_slice', 'from_slice'):
@@ -464,6 +475,23 @@ def fp_cover(key, all_names):
         m = re.fullmatch(r'impl Group for (G[12])', ctx)
         if m and fn == 'normalize':
             names = [f'Lib{m.group(1)}_normalize']
+        m = re.fullmatch(r'impl (G[12])', ctx)
+        if m and fn == 'new':
+            names = [f'Lib{m.group(1)}_new']
+        m = re.fullmatch(r'impl Group for (G[12])', ctx)
+        if m and fn in ('zero', 'one', 'is_zero'):
+            names = [f'Lib{m.group(1)}_{fn}']
+        m = re.fullmatch(r'impl (Add|Sub) < (G[12]) > for G[12]|impl (Neg) for (G[12])|impl (Mul) < Fr > for (G[12])', ctx)
+        if m and fn in ('add', 'sub', 'neg', 'mul'):
+            g = m.group(2) or m.group(4) or m.group(6)
+            names = [f'Lib{g}_{fn}']
+        if ctx == 'impl Gt' and fn in ('one', 'pow', 'inverse', 'to_slice'):
+            names = [f'LibGt_{fn}']
+        if ctx == 'impl Mul < Gt > for Gt' and fn == 'mul':
+            names = ['LibGt_mul']
+        m = re.fullmatch(r'impl (AffineG[12])', ctx)
+        if m and fn == 'from_jacobian':
+            names = [f'Lib{m.group(1)}_from_jacobian']
         if ctx == 'impl G2Prepared' and fn == 'pairing':
             names = ['LibG2Prepared_pairing']
         if ctx == 'impl From < G2 > for G2Prepared' and fn == 'from':
